@@ -71,6 +71,10 @@ def okClaims (label kid origin : Str) : Claims :=
   [("verified".toList, "true".toList), ("proxy".toList, label), ("kid".toList, kid),
    ("origin_id".toList, origin), ("reason".toList, "ok".toList)]
 
+/-- §3: the header value a proxy mints: `v1.<kid>.<ts>.<nonce>.<base64url(mac)>` -/
+def mintedToken (kid ts nonce : Str) (mac : Bytes) : Str :=
+  v1 ++ '.' :: (kid ++ '.' :: (ts ++ '.' :: (nonce ++ '.' :: Base64.encode mac)))
+
 /-! ### §6 the table -/
 
 /-- The verifier table.  `vals` are the header instances the request carries (`[]` = header absent),
@@ -100,6 +104,19 @@ def table (hmac : Hmac) (cfg : Config) (vals : List Str) (now : Int) (st : Optio
                 if seen c t nonce then (.err .replayed, some (purge c t))            -- 9
                 else (.ok (okClaims label kid cfg.origin), some (remember c t nonce))
       | _ => (.err .malformed, st)                                                   -- 3  not exactly 5 fields
+
+/-- a history of requests against one worker: results in order, and the cache at the end -/
+def runTable (hmac : Hmac) (cfg : Config) : Option NonceState → List Req → List Result × Option NonceState
+  | st, [] => ([], st)
+  | st, r :: rs =>
+    let step := table hmac cfg r.vals r.now st r.mono
+    let rest := runTable hmac cfg step.2 rs
+    (step.1 :: rest.1, rest.2)
+
+/-- the cache clock never goes backwards along a history that starts at cache time `t0` -/
+def ClockMonotone (t0 : Int) : List Req → Prop
+  | [] => True
+  | r :: rs => t0 ≤ r.mono ∧ ClockMonotone r.mono rs
 
 /-- the seven reason codes of the table -/
 def reasons : List Reason := [.noProof, .malformed, .unknownKid, .expired, .notYetValid, .badMac, .replayed]
